@@ -76,6 +76,9 @@ func discoverRoot(root string) ([]repositorySpec, error) {
 		if bare {
 			name = strings.TrimSuffix(name, ".git")
 		}
+		if name == "" {
+			return fmt.Errorf("cannot derive a repository name for %s", source)
+		}
 		repositories = append(repositories, repositorySpec{
 			Name:   filepath.ToSlash(name),
 			Source: source,
